@@ -9,7 +9,7 @@ def irdl_attr_definition(cls):
     return cls
 
 
-from pyvc.irdlhelpers import (attr_def, irdl_init, operand_def, opt_attr_def, opt_operand_def, opt_prop_def, opt_region_def,
+from pyvc.irdlhelpers import (attr_def, irdl_defs, irdl_init, operand_def, opt_attr_def, opt_operand_def, opt_prop_def, opt_region_def,
                               opt_result_def, prop_def, region_def, result_def, var_operand_def, var_region_def, var_result_def)
 from xdsl.ir import Operation
 
@@ -38,6 +38,37 @@ class IRDLOperation(Operation):
     @classmethod
     def build(cls, operands=(), result_types=(), properties=None, attributes=None, successors=(), regions=()):
         return cls.create(operands, result_types, properties, attributes, successors, regions)
+
+    def clone(self, value_mapper=None, block_mapper=None):
+        """as xdsl: a new op of the same class, operands looked up in `value_mapper` (by identity), same properties and
+        attributes, fresh results which are entered into the mapper; ops with regions are not modelled"""
+        vm = value_mapper if value_mapper is not None else {}
+        if len(self.regions) > 0:
+            raise NotImplementedError("clone of an op with regions")
+        operands = []
+        result_types = []
+        for (n, kind, variadic, optional) in irdl_defs(self):
+            val = getattr(self, n)
+            if kind == "operand":
+                if variadic:
+                    operands.append([vm[v] if v in vm else v for v in val])
+                elif optional:
+                    operands.append([] if val is None else [vm[val] if val in vm else val])
+                else:
+                    operands.append(vm[val] if val in vm else val)
+            else:
+                if variadic:
+                    result_types.append([r.type for r in val])
+                elif optional:
+                    result_types.append([] if val is None else [val.type])
+                else:
+                    result_types.append(val.type)
+        new = type(self).create(operands, result_types, dict(self.properties), dict(self.attributes))
+        k = 0
+        for r in self.results:
+            vm[r] = new.results[k]
+            k += 1
+        return new
 
 
 class ParameterDef:
